@@ -224,6 +224,7 @@ type LenConn struct {
 	WriteLen []int
 	WroteBuf [][]byte
 	Closed   bool
+	First    []byte // known first bytes of the stream (stored into the reader's buffer), the rest is abstract
 }
 
 func (c *LenConn) Read(p []byte) (int, error) {
@@ -243,6 +244,11 @@ func (c *LenConn) Read(p []byte) (int, error) {
 	if c.short < c.MaxShort {
 		c.short++
 		k = vapi.Range("chunk", 1, k)
+	}
+	for i := 0; i < len(c.First) && c.Consumed+i < len(c.First); i++ {
+		if c.Consumed == 0 && i < len(p) {
+			p[i] = c.First[i]
+		}
 	}
 	c.Avail -= k
 	c.Consumed += k
